@@ -1588,6 +1588,23 @@ void Validator::ValidatorImpl::validateReset(const ResetPtr &reset, const Compon
 
 void Validator::ValidatorImpl::validateMath(const std::string &input, const ComponentPtr &component)
 {
+    // Character data next to the math element(s) is not part of any math element.
+    XmlDocPtr wrappedDoc = std::make_shared<XmlDoc>();
+    wrappedDoc->parse("<root>" + input + "</root>");
+    XmlNodePtr wrappedRootNode = wrappedDoc->rootNode();
+    if (wrappedRootNode != nullptr) {
+        for (XmlNodePtr child = wrappedRootNode->firstChild(); child != nullptr; child = child->next()) {
+            if (child->isText() && !child->convertToStrippedString().empty()) {
+                auto issue = Issue::IssueImpl::create();
+                issue->mPimpl->setDescription("Math on component '" + component->name() + "' contains the text '" + child->convertToStrippedString() + "' outside of a math element.");
+                issue->mPimpl->mItem->mPimpl->setMath(component);
+                issue->mPimpl->setReferenceRule(Issue::ReferenceRule::XML_UNEXPECTED_CHARACTER);
+                addIssue(issue);
+                break;
+            }
+        }
+    }
+
     // Parse as XML first.
     std::vector<XmlDocPtr> docs = multiRootXml(input);
     for (const auto &doc : docs) {
